@@ -78,7 +78,7 @@ func runCases(c *Ctx, progs []*rtProgram, perProg int, base TASpec) []*rtCase {
 	}
 	results := RunSpecs(specs, 14)
 	for i, r := range results {
-		cases[i].res = r
+		cases[i].res = confirmAlone(c, cases[i].spec, r)
 	}
 	return cases
 }
